@@ -32,6 +32,7 @@ type TSObs struct {
 	ErrClass string `json:"errClass"`
 	Exact    bool   `json:"exact"`
 	Partial  bool   `json:"partial"`
+	CrossOK  bool   `json:"crossOK"`
 	Panic    bool   `json:"panic"`
 	Note     string `json:"-"`
 }
@@ -90,6 +91,15 @@ func writeEntry(storeDir string, i int, kind string, pki *tsPKI, outside string)
 		return []*x509.Certificate{pki.rootC.Certs[0]}
 	case "multiPEM":
 		c := []*x509.Certificate{pki.chain.Root(), pki.selfLeaf.Leaf()}
+		must(os.WriteFile(fn, pemOf(c...), 0644))
+		return c
+	case "multiCAnonRootFirst":
+		// two CA certificates in one file, the non-root first (every certificate of a tsa store must be a root)
+		c := []*x509.Certificate{pki.chain.Certs[1], pki.chain.Root()}
+		must(os.WriteFile(fn, pemOf(c...), 0644))
+		return c
+	case "multiCAnonRootLast":
+		c := []*x509.Certificate{pki.chain.Root(), pki.chain.Certs[1]}
 		must(os.WriteFile(fn, pemOf(c...), 0644))
 		return c
 	case "selfSignedLeaf":
@@ -166,8 +176,21 @@ func runTrustStoreFS() int {
 				must(os.WriteFile(storePath, pemOf(pki.rootA.Certs[0]), 0644))
 			}
 		}
+		// stores of the OTHER types under the same name, each with its own certificate
+		crossWant := map[string]*x509.Certificate{}
+		if in.Name == "plain" || in.Name == "dotted" {
+			others := map[string]*x509.Certificate{"ca": pki.rootA.Certs[0], "signingAuthority": pki.rootB.Certs[0], "tsa": pki.rootC.Certs[0]}
+			for ot, cert := range others {
+				if ot == typ {
+					continue
+				}
+				must(os.MkdirAll(filepath.Join(x509dir, ot, nameStr), 0755))
+				must(os.WriteFile(filepath.Join(x509dir, ot, nameStr, "own.crt"), pemOf(cert), 0644))
+				crossWant[ot] = cert
+			}
+		}
 		ts := truststore.NewX509TrustStore(dir.NewSysFS(cfg))
-		obs := TSObs{ErrClass: "none"}
+		obs := TSObs{ErrClass: "none", CrossOK: true}
 		var certs []*x509.Certificate
 		var gerr error
 		panicked, msg := guarded(func() {
@@ -202,6 +225,24 @@ func runTrustStoreFS() int {
 				sort.Strings(got)
 				sort.Strings(exp)
 				obs.Exact = strings.Join(got, ",") == strings.Join(exp, ",")
+			}
+		}
+		// the same instance, asked for the same name under each other type, answers with that type's own store
+		if !obs.Panic {
+			for _, ot := range []string{"ca", "signingAuthority", "tsa"} {
+				cert, ok := crossWant[ot]
+				if !ok {
+					continue
+				}
+				pn, _ := guarded(func() {
+					got, err := ts.GetCertificates(context.Background(), truststore.Type(ot), nameStr)
+					if err != nil || len(got) != 1 || thumb(got[0]) != thumb(cert) {
+						obs.CrossOK = false
+					}
+				})
+				if pn {
+					obs.CrossOK = false
+				}
 			}
 		}
 		if *flagLie == "ok" && c.ID%97 == 7 {
